@@ -13,7 +13,7 @@ def build_model(world, mtype, spec):
         W = dec(spec["W"])
         means = dec(spec["means"])
         variances = dec(spec["variances"])
-        return S.LGANM(W, means, variances, random_state=spec.get("seed"))
+        return S.LGANM(W, means, variances, random_state=dec(spec.get("seed")))
     if mtype == "nd":
         return S.NormalDistribution(dec(spec["mean"]), dec(spec["cov"]))
     if mtype == "anm":
@@ -67,7 +67,7 @@ def invoke(world, rec):
     S = world.sempler
     api = rec["api"]
     a = rec.get("args", {})
-    seed = rec.get("seed")
+    seed = dec(rec.get("seed"))
 
     if api == "lganm.new":
         def f():
